@@ -295,10 +295,13 @@ def check_nearmiss(case):
   # a trailing backslash): Python is asked about the text as is, and with trailing white space
   # removed / a final newline added.
   expected = None
-  for variant in (text, text.rstrip(' \t\r\n\f'), text + '\n', text.strip(' \t\r\n\f'), None):
+  stripped = text.strip(' \t\r\n\f')
+  for fn, variant in ((py_eval, text), (py_eval, text.rstrip(' \t\r\n\f')), (py_eval, text + '\n'),
+                      (py_eval, stripped), (py_eval_rhs, stripped),
+                      # (a continuation before the value and one after it: both are layout)
+                      (py_eval_rhs, stripped + '\n')):
     try:
-      expected = ('ok', py_eval(variant) if variant is not None
-                  else py_eval_rhs(text.strip(' \t\r\n\f')))
+      expected = ('ok', fn(variant))
       break
     except (TypeError, RecursionError, MemoryError):
       break
